@@ -658,6 +658,10 @@ def install():
         if call["shadow"]:
             return
         ctx.sched_calls.append(call)
+        # the decision as the policy returned it (the boundary), kept apart from what Task.schedule() was told
+        for p in pls:
+            if p.placement_type in (PT.PLACE_TASK, PT.CANCEL_TASK) and p.task is not None:
+                ctx.trec(p.task)["policy_decision"] = p
         if ctx.opts.get("shadow_policies"):
             _shadow_invocations(ctx, self, sim_time, workload, worker_pools)
     for cls in policymon.policy_classes():
@@ -784,6 +788,17 @@ def _transition(ctx, r, pre, post, via):
         if post == "VIRTUAL" and r.get("released_at") is not None:
             ctx.violate("C06", "released_task_back_to_virtual", f"{r['uname']}: released at {r['released_at']}, {pre} -> VIRTUAL via {via}")
         r["history"].append(post)
+    # C06: "may fall back from SCHEDULED to its earlier state when a plan is skipped or retracted": the harness keeps its
+    # own record of the state the task was in when the current scheduled episode began (RELEASED once a release was seen)
+    if via == "schedule" and pre != "SCHEDULED":
+        r["pre_sched"] = pre
+    elif via == "release" and pre == "SCHEDULED":
+        r["pre_sched"] = "RELEASED"
+    elif via == "unschedule":
+        ctx.count("unschedule_fallbacks_checked")
+        want = r.get("pre_sched")
+        if post == "SCHEDULED" or (want is not None and post != want):
+            ctx.violate("C06", "unschedule_did_not_restore", f"{r['uname']}: unschedule left {post}, state before scheduling was {want}")
     r["state"] = post
 
 
@@ -864,6 +879,24 @@ def _after_start(ctx, r, task, a, k):
             ctx.violate("C03", "start_before_chosen_time", f"{r['uname']} started at {t} < chosen {pl.placement_time.time}")
         rt = pl.execution_strategy.runtime.time if pl.execution_strategy is not None else None
         r["expect_runtime"] = rt
+        # ... and the decision the policy itself returned last for this task (boundary record)
+        pd = r.get("policy_decision")
+        if pd is not None:
+            ctx.count("starts_vs_policy_decision")
+            if pd.placement_type.name != "PLACE_TASK" or not pd.is_placed():
+                ctx.violate("C03", "start_without_standing_decision", f"{r['uname']} started at {t} but the policy's last answer for it was {pd.placement_type.name} placed={pd.is_placed()}")
+            else:
+                if t < pd.placement_time.time:
+                    ctx.violate("C03", "start_before_chosen_time", f"{r['uname']} started at {t} < policy's chosen {pd.placement_time.time}")
+                if pd.execution_strategy is not None:
+                    rt2 = pd.execution_strategy.runtime.time
+                    if rt is not None and rt2 != rt:
+                        ctx.violate("C03", "runs_other_strategy_than_decided",
+                                    f"{r['uname']} policy decided runtime {rt2}, the task was told {rt}")
+                    if r.get("strategy_runtime") is not None and r["strategy_runtime"] != rt2:
+                        ctx.violate("C03", "placed_with_other_strategy",
+                                    f"{r['uname']} policy decided runtime {rt2} but placed with strategy runtime {r['strategy_runtime']}")
+                    r["expect_runtime"] = rt2
         if pl.execution_strategy is not None and r.get("strategy_runtime") is not None \
                 and r["strategy_runtime"] != rt:
             ctx.violate("C03", "placed_with_other_strategy",
